@@ -36,16 +36,16 @@ def add(pid, level, text, note, technique, ref):
 import os
 if os.path.exists('/verif/sim/cmd/c08/main.go') and os.environ.get('WITH_C08','1')=='1' and os.path.getsize('/verif/sim/cmd/c08/main.go')>0:
     add("C08","fault_enumeration",
-     "Writer -> simulated storage medium -> reader: real encoders write a seeded corpus, the medium injects truncation, torn/lost/misdirected/duplicated sectors, bit rot, count/varint/type field smashes, splices and token-level faults, and every real decoder reads the result in a sacrificial worker under an address-space ceiling, an allocation meter and a logical step budget. Single faults are enumerated completely for small records; larger records and fault sequences are sampled.",
-     "Trusted: the harness's structural field maps (its own minimal encoders), the allocation bound constants (policy, stated in evidence), Go runtime accounting (TotalAlloc). Coverage-guided mutation is not done.",
+     "Writer -> simulated storage medium -> reader: real encoders write a seeded corpus (plus grammar-generated and foreign-producer documents), the medium injects truncation, torn/lost/misdirected/duplicated sectors, bit rot, count/varint/type/ordinate field smashes, splices, token-level faults, hex text, deep nesting, and recycles its buffer after the read; every real decoder reads the result from read-only memory in a sacrificial worker under a 4 GiB address-space ceiling, an allocation meter and a logical step budget, and what it returns is validated and re-encoded. Single faults are enumerated completely for records <= 512 bytes (thorough); larger records and fault sequences are sampled.",
+     "Trusted: the harness's structural scanners and lexer, the allocation bound constants (policy, stated in evidence with the measured worst ratio), Go runtime accounting (TotalAlloc). Coverage-guided mutation is not done.",
      "deterministic simulation of a faulty storage medium between real encoders and real decoders; complete single-fault enumeration + seeded fault sequences; sacrificial workers with RLIMIT_AS", "3.1")
 if os.path.exists('/verif/sim/cmd/c10/main.go') and os.path.getsize('/verif/sim/cmd/c10/main.go')>0:
     add("C10","exploration",
-     "2-16 simulated caller goroutines share a pool of operands and drive the public read API under a seeded baton scheduler that decides every interleaving (yield points AST-inserted at every function entry and loop head of geom and rtree) and every map iteration order (range-over-map rewritten to a seeded order seam). Results are compared bit-for-bit with a canonical-order single-task reference and with the un-instrumented library in another process; operands are re-digested at every context switch and live in mprotect'ed memory; a -race build with a detector-invisible baton reports data races deterministically.",
-     "Trusted: the instrumenter's four rewrites (cross-checked every batch against the un-instrumented library), the Go race detector (bounded history window, handled by park-and-sweep scheduling), reflection-driven operation table. Sampling, not enumeration, of schedules.",
+     "2-16 simulated caller goroutines share a pool of operands (geometries, sequences, envelopes, R-trees, encoded documents) and drive 410+ operations of the public API under a seeded baton scheduler that decides every interleaving (yield points AST-inserted at every function entry and loop head of geom and rtree), every map iteration order (range-over-map rewritten to a seeded order seam) and every sync.Pool hand-out. Every result is compared bit-for-bit with the same call alone (canonical order), repeated in reverse order, and executed by the un-instrumented library in other processes; operands live in mprotect'ed memory and are re-digested at context switches; caller buffers are reused after calls; a -race build with a detector-invisible baton and park-and-sweep schedules reports data races.",
+     "Trusted: the instrumenter's rewrites (cross-checked on every third run against the un-instrumented library in a separate process), the Go race detector (bounded history window and random shadow-cell eviction: reports are confirmed statistically), the reflection-driven operation table (checked against the packages' exported functions). Sampling, not enumeration, of schedules.",
      "deterministic simulation: seeded scheduler over instrumented real code + seeded map-iteration orders + race detector with invisible baton + frozen operand memory", "3.2")
 add("C11","exploration",
- "Real rtree code under a seeded scheduler: 1-8 simulated caller goroutines issue scripted searches on a shared bulk-loaded tree; callbacks are the fault seam (Stop, wrapped Stop, error, wrapped error, panic at position k; nested searches; task switches inside callbacks). Every callback history and return value is checked against a linear-scan model. Sizes 0..40 x 14 layouts are enumerated with every abort position and kind; larger trees are sampled up to 5000 items.",
+ "Real rtree code under a seeded scheduler: 1-8 simulated caller goroutines issue scripted searches on a shared bulk-loaded tree; callbacks are the fault seam (Stop, wrapped and joined Stop, error, wrapped error, panic at position k; nested searches; task switches inside callbacks). Every callback history and return value is checked against a linear-scan model. Sizes 0..40 x 15 layouts are enumerated with every abort position and kind; larger trees are sampled up to 5000 items.",
  "Trusted: the linear-scan reference model; exact float arithmetic on integer-times-power-of-two coordinates; the verif-tagged structural hook only steers (adds targeted queries), it does not judge.",
  "deterministic simulation with seeded scheduler and scripted callback faults; histories checked against a linear-scan reference model", "3.3")
 claimed = {c["property_id"] for c in checks}
@@ -65,7 +65,7 @@ m = {
    {"name":"c11","path":"sim/cmd/c11","serves_properties":["C11"],"kind_free_text":"seeded scheduler + scripted callback faults over yield-instrumented rtree"},
  ],
  "checks": checks,
- "notes": "Technique family: deterministic simulation with fault injection. Only C08, C10 and C11 have a schedule, fault sequence or history in their quantifier and a seam in the code; the other 17 properties are pure functions of their inputs and are listed under not_applicable (DESIGN.md sections 1 and 4). Exit codes: 0 held, 1 VIOLATION, 2 machinery trouble (never a VIOLATION line).",
+ "notes": "Technique family: deterministic simulation with fault injection. Only C08, C10 and C11 have a schedule, fault sequence or history in their quantifier and a seam in the code; the other 17 properties are pure functions of their inputs and are listed under not_applicable (DESIGN.md sections 1 and 4). Exit codes: 0 held, 1 VIOLATION, 2 machinery trouble (never a VIOLATION line). `./check selftest` proves determinism (same seed => identical choice traces and results in six fresh processes at GOMAXPROCS 1, 4, 16). seeded/ holds 60 independently written breaking changes (all caught), sensitivity/ 32 planned ones (23 breakages caught, 9 benign changes quiet); see DESIGN.md section 9.",
  "not_applicable": [{"property_id":k,"reason":v} for k,v in sorted(na.items())] + [
    {"property_id":k,"reason":"engine under construction in this session; see DESIGN.md section 3"} for k in ("C08","C10") if k not in claimed],
 }
